@@ -211,6 +211,16 @@ theorem writes_determined_by_output (cfg : Cfg) (hB : 0 < cfg.bufSize) (allowTra
     (coderNormal cfg allowTrailing trailing steps []).writes = splitFull cfg.bufSize (libOutput steps) := by
   simpa using coderNormal_writes_split cfg hB allowTrailing trailing steps [] (by simpa using hB) (by simpa using hfit) hfin
 
+/-- The canonical call sequence the model driver builds from a library result `(warnings, output, final value)` is a
+    legitimate one: it fits the buffer, produces exactly that output, ends with that value and has that many warnings.
+    Together with `writes_determined_by_output` the driver's answer is the model's answer for EVERY fitting call
+    sequence with that result. -/
+theorem driver_steps_legitimate (cfg : Cfg) (hB : 0 < cfg.bufSize) (warn : Nat) (out : List UInt8) (ret : Ret)
+    (hr : ret.stops = true) :
+    libOutput (canonicalSteps cfg warn out ret) = out ∧ libFinal (canonicalSteps cfg warn out ret) = some ret ∧
+    libWarnings (canonicalSteps cfg warn out ret) = warn ∧ stepsFit cfg (canonicalSteps cfg warn out ret) 0 = true :=
+  canonicalSteps_spec cfg hB warn out ret hr
+
 /-- End to end for `xz -dc` on one recognised file whose headers decoded: standard output receives exactly the
     library's output (placed by `write` semantics) when the run succeeds, and also when it fails provided the
     real `io_close` has the `failFlush` behaviour; the flags of standard output are as before. -/
